@@ -269,8 +269,7 @@ def textKids : Option Str → List Node → List Node
 
 /-- a DATA event on a started frame -/
 theorem eStep_data_started (nil : EName) (v : Val) (val : Option Str) (hv : valText v = some val)
-    (ef : EFrame) (hst : ef.started = true) (est : List EFrame) (eroot : Option Node) (ra : List (EName × Str))
-    (hok : ¬ (ef.afterData = true ∧ ∃ x, val = some x ∧ x.isEmpty = false)) :
+    (ef : EFrame) (hst : ef.started = true) (est : List EFrame) (eroot : Option Node) (ra : List (EName × Str)) :
     eStep nil ⟨ef :: est, eroot, ra⟩ (Ev.data v)
       = some ⟨{ ef with kidsRev := textKids val ef.kidsRev, afterData := true } :: est, eroot, ra⟩ := by
   simp only [eStep, hv, dropNil_started nil _ ef hst, textKids]
@@ -280,11 +279,7 @@ theorem eStep_data_started (nil : EName) (v : Val) (val : Option Str) (hv : valT
     by_cases hx : x.isEmpty = true
     · simp [hx]
     · have hxe : x.isEmpty = false := by simpa using hx
-      have had : ef.afterData = false := by
-        cases h : ef.afterData with
-        | false => rfl
-        | true => exact absurd ⟨h, x, rfl, hxe⟩ hok
-      simp [hxe, had]
+      simp [hxe]
 
 theorem l3_content_data (env : NsEnv) (v : Val) (k : Content) (ih : L3c env k) : L3c env (.data v k) := by
   intro M it cs h hp ef est eroot ra sf sst sroot rest hst had hk
@@ -297,7 +292,7 @@ theorem l3_content_data (env : NsEnv) (v : Val) (k : Content) (ih : L3c env k) :
   cases val with
   | none =>
     simp only [] at h
-    rw [eRun_cons _ _ _ _ _ (eStep_data_started _ v none hv ef hst est eroot ra (by simp))]
+    rw [eRun_cons _ _ _ _ _ (eStep_data_started _ v none hv ef hst est eroot ra)]
     simp only [textKids]
     obtain ⟨K, h1, h2⟩ := ih M true cs h hpk { ef with afterData := true } est eroot ra sf sst sroot rest hst rfl hk
     exact ⟨K, h1, h2⟩
@@ -305,25 +300,20 @@ theorem l3_content_data (env : NsEnv) (v : Val) (k : Content) (ih : L3c env k) :
     simp only [] at h
     by_cases hx : x.isEmpty = true
     · simp only [hx, if_true] at h
-      rw [eRun_cons _ _ _ _ _ (eStep_data_started _ v (some x) hv ef hst est eroot ra
-        (by rintro ⟨_, y, hy, hy2⟩; cases hy; simp [hx] at hy2))]
+      rw [eRun_cons _ _ _ _ _ (eStep_data_started _ v (some x) hv ef hst est eroot ra)]
       simp only [textKids, hx, if_true]
       obtain ⟨K, h1, h2⟩ := ih M true cs h hpk { ef with afterData := true } est eroot ra sf sst sroot rest hst rfl hk
       exact ⟨K, h1, h2⟩
     · have hxe : x.isEmpty = false := by simpa using hx
-      simp only [hxe, Bool.false_eq_true, if_false] at h
-      cases it with
-      | true => simp at h
-      | false =>
-        simp only [Bool.false_eq_true, if_false, Option.map_eq_some_iff] at h
-        obtain ⟨r, hr, rfl⟩ := h
-        rw [eRun_cons _ _ _ _ _ (eStep_data_started _ v (some x) hv ef hst est eroot ra (by simp [had]))]
-        simp only [textKids, hxe, Bool.false_eq_true, if_false]
-        obtain ⟨K, h1, h2⟩ := ih M true r hr hpk { ef with kidsRev := addText x ef.kidsRev, afterData := true } est eroot ra
-          { sf with kidsRev := addText x sf.kidsRev } sst sroot rest hst rfl (by simp [hk])
-        refine ⟨K, h1, ?_⟩
-        simp only [sRun, sStep]
-        exact h2
+      simp only [hxe, Bool.false_eq_true, if_false, Option.map_eq_some_iff] at h
+      obtain ⟨r, hr, rfl⟩ := h
+      rw [eRun_cons _ _ _ _ _ (eStep_data_started _ v (some x) hv ef hst est eroot ra)]
+      simp only [textKids, hxe, Bool.false_eq_true, if_false]
+      obtain ⟨K, h1, h2⟩ := ih M true r hr hpk { ef with kidsRev := addText x ef.kidsRev, afterData := true } est eroot ra
+        { sf with kidsRev := addText x sf.kidsRev } sst sroot rest hst rfl (by simp [hk])
+      refine ⟨K, h1, ?_⟩
+      simp only [sRun, sStep]
+      exact h2
 
 theorem l3_body_data (env : NsEnv) (v : Val) (k : Content) (ih : L3c env k) : L3b env (.data v k) := by
   intro base tag A M2 cs h hp q ea est eroot ra sst sroot rest hA hs
